@@ -112,13 +112,20 @@ CLAIMED.update({
             "remediated; an unremediated failure fails the workflow from running/pausing/paused/resuming and stays cancel-class "
             "while canceling; pausing/canceling are left as soon as a settled task event is processed with nothing active "
             "(facts sweep all 16 statuses x 32 flag combinations of the contextualised name against the generated table). "
-            "Tested, not proved: the link between active task executions and the provider's in-flight set.",
+            "For the formal provider protocol (ProviderSys.v: boot, atomic poll+acknowledge, report, requests, render, "
+            "persist), every evaluator, workflows without with-items over a well-formed composed graph and every fault-free "
+            "history: an action is in flight iff its record is active; paused/canceled => nothing in flight; "
+            "pausing/canceling => something in flight; succeeded => nothing in flight, staged or active and every record "
+            "completed or retrying (partial: retrying not excluded). Tested, not proved: the same with with-items tasks and "
+            "intermediate action statuses; a fail command / runtime error ends failed (C11b proves the latter).",
             "Reference provider protocol; known findings D1, D8, D9, D21, D24."),
     "C03": ("PARTIAL. Proved: a settled task event processed with nothing active takes a pausing/canceling workflow to rest "
             "(table sweeps: dormant events are always accepted there and always lead to a resting status); resume of a finished "
-            "paused workflow completes it; what is on offer is exactly the ready staged entries. Tested, not proved: running / "
-            "resuming with nothing in flight always offers something (side-effect-free poll of a restored copy at every "
-            "quiescent point).",
+            "paused workflow completes it; what is on offer is exactly the ready staged entries. For the formal provider protocol, every evaluator, workflows without with-items over a "
+            "well-formed composed graph with a start task and every fault-free history: quiescence (nothing in flight, empty "
+            "poll) implies succeeded/failed/canceled/paused, and paused only after a pause request; witnesses show the two "
+            "hypotheses are needed. Tested, not proved: the same with with-items, retry-in-loops, reruns and intermediate "
+            "action statuses (side-effect-free poll of a restored copy at every quiescent point).",
             "Known findings D1, D8, D9, D21, D24, D25."),
     "C16": ("PARTIAL. Proved: exact characterisation of merge_dicts (lookup, replace for non-dicts, key order, uniqueness), "
             "literal values pass through evaluate unchanged in type and value, evaluate is state-pure, the data path links "
